@@ -28,7 +28,7 @@ func init() {
 			"an AST blob that decodes differently is recorded but is not a verdict (the tree is an optional accelerator that falls back to re-parsing)",
 			"sources >= 4 GiB (uint32 length prefix) are out of reach",
 		},
-		quick: 6000, thorough: 120000, minQuick: 2500, minThorough: 50000,
+		quick: 16000, thorough: 120000, minQuick: 2500, minThorough: 50000,
 	}})
 }
 
